@@ -2556,13 +2556,24 @@ def check_stack_pinned(rep, rule):
     for modname, q in ((ROUTE, 'Route.__init__'), (APP, 'Application.__init__')):
         mod = repo.mod(modname)
         fi = mod.func(q)
-        sm = [s_ for s_ in stmts_of(fi.node) if isinstance(s_, (ast.Assign, ast.AnnAssign)) and
-              any(norm(t) == 'self.middlewares' for t in (s_.targets if isinstance(s_, ast.Assign) else [s_.target]))]
+        def stack_stores(f_):
+            return [s_ for s_ in stmts_of(f_.node) if isinstance(s_, (ast.Assign, ast.AnnAssign)) and
+                    any(norm(t) == 'self.middlewares' for t in (s_.targets if isinstance(s_, ast.Assign) else [s_.target]))]
+        home, sm = fi, stack_stores(fi)
+        if not sm:
+            # the constructor may leave the assignment to a method of the class it calls on self
+            ctor = fi
+            for c in walk_body(ctor.node):
+                m_ = mod.cls(q.split('.')[0]).methods.get(c.func.attr) if isinstance(c, ast.Call) and isinstance(c.func, ast.Attribute) and \
+                    norm(c.func.value) == 'self' else None
+                if m_ is not None and stack_stores(m_):
+                    home, sm = m_, stack_stores(m_)
+                    break
         if not sm:
             raise AnalysisError('%s: no assignment to self.middlewares' % q)
 
-        def fresh(e, depth=0):
-            e = _deref(fi, e) if depth < 3 else e
+        def fresh(e, depth=0, home=home):
+            e = _deref(home, e) if depth < 3 else e
             if isinstance(e, ast.Call) and call_name(e) in ('list', 'tuple') and len(e.args) <= 1 and not e.keywords:
                 return True
             if isinstance(e, (ast.List, ast.Tuple)):
@@ -2580,7 +2591,7 @@ def check_stack_pinned(rep, rule):
                   '%s keeps a copy of the middleware list it is given' % q.split('.')[0] if ok else
                   '%s stores the caller\'s middleware list object itself (%s): a list that is extended, re-ordered or emptied after the %s '
                   'was created -- and before it is bound -- changes which middlewares run around its endpoint, and in which order'
-                  % (q, short(bad[0].value, 60), q.split('.')[0].lower()), mod, bad[0] if bad else sm[0])
+                  % (q, short(bad[0].value, 60), q.split('.')[0].lower()), home.mod, bad[0] if bad else sm[0])
 
 
 def check_merge_order(rep, rule):
@@ -2634,6 +2645,326 @@ def check_merge_order(rep, rule):
 
 
 # ---------------------------------------------------------------------------------------------
+# R01.a / R02.c: the table of URL bindings -- one table: what match_path fills is what binding counted as provided
+# ---------------------------------------------------------------------------------------------
+
+_SEQ_WRAPPERS = ('list', 'tuple', 'iter', 'sorted', 'reversed', 'set', 'frozenset')
+
+
+def _unwrap_seq(e):
+    while isinstance(e, ast.Call) and call_name(e) in _SEQ_WRAPPERS and len(e.args) == 1 and not e.keywords:
+        e = e.args[0]
+    return e
+
+
+def _self_attr(e):
+    return e.attr if isinstance(e, ast.Attribute) and isinstance(e.value, ast.Name) and e.value.id == 'self' else None
+
+
+def _table_iter(fi, e):
+    """``e`` walks a mapping kept on self: ``self.A.items()`` / ``self.A.keys()`` / ``self.A`` (possibly under a local name,
+    possibly wrapped in list() / sorted() ..) -> (A, 'items' | 'keys'); None otherwise."""
+    e = _unwrap_seq(_deref(fi, e))
+    if isinstance(e, ast.Call) and isinstance(e.func, ast.Attribute) and e.func.attr in ('items', 'keys') and not e.args and not e.keywords:
+        a = _self_attr(_deref(fi, e.func.value))
+        return (a, e.func.attr) if a else None
+    a = _self_attr(_deref(fi, e))
+    return (a, 'keys') if a else None
+
+
+def _key_var(target, how):
+    """Name of the variable that takes the keys of the table in ``for <target> in <table iteration>``."""
+    if how == 'items':
+        if isinstance(target, (ast.Tuple, ast.List)) and len(target.elts) == 2 and isinstance(target.elts[0], ast.Name):
+            return target.elts[0].id
+        return None
+    return target.id if isinstance(target, ast.Name) else None
+
+
+def url_param_fillers(repo):
+    """How BoundRoute.match_path fills the mapping of URL parameters it returns.  -> (fi, mapping returns, records); a record
+    is a dict: table (the attribute of self whose keys become the keys of the mapping), kind 'loop' (loop, stores: the
+    statements ``mapping[key] = ..`` of its body) or 'comp' (node, filters)."""
+    mp = repo.mod(ROUTE).func('BoundRoute.match_path')
+    rets = [r for r in returns_of(mp) if r.value is not None and not (isinstance(r.value, ast.Constant) and r.value.value is None)]
+    if not rets:
+        raise AnalysisError('BoundRoute.match_path: no return of a mapping')
+    recs = []
+
+    def comp_record(e):
+        gen = None
+        if isinstance(e, ast.DictComp):
+            gen, key = e.generators, e.key
+        elif isinstance(e, ast.Call) and call_name(e) == 'dict' and len(e.args) == 1 and not e.keywords and \
+                isinstance(e.args[0], (ast.ListComp, ast.GeneratorExp)) and isinstance(e.args[0].elt, ast.Tuple) and len(e.args[0].elt.elts) == 2:
+            gen, key = e.args[0].generators, e.args[0].elt.elts[0]
+        if gen is None or len(gen) != 1:
+            return None
+        ti = _table_iter(mp, gen[0].iter)
+        kv = _key_var(gen[0].target, ti[1]) if ti else None
+        if kv is None or not (isinstance(key, ast.Name) and key.id == kv):
+            return None
+        return {'table': ti[0], 'kind': 'comp', 'node': e, 'filters': list(gen[0].ifs)}
+    names = set()
+    for r in rets:
+        v = r.value
+        if isinstance(v, ast.Name):
+            names.add(v.id)
+        else:
+            c = comp_record(v)
+            if c is None:
+                raise AnalysisError('BoundRoute.match_path: the returned mapping %s is not followed' % short(v, 60))
+            recs.append(c)
+    for name in sorted(names):
+        found = False
+        for st_, v, idx in assigned_value(mp.node, name):
+            c = comp_record(v) if idx is None and isinstance(v, ast.expr) else None
+            if c is not None:
+                recs.append(c)
+                found = True
+        for lp in [s_ for s_ in stmts_of(mp.node) if isinstance(s_, ast.For)]:
+            ti = _table_iter(mp, lp.iter)
+            kv = _key_var(lp.target, ti[1]) if ti else None
+            if kv is None:
+                continue
+            stores = [s_ for b in lp.body for s_ in [b] + [x for x in ast.walk(b) if isinstance(x, ast.stmt) and x is not b]
+                      if isinstance(s_, ast.Assign) and len(s_.targets) == 1 and isinstance(s_.targets[0], ast.Subscript) and
+                      norm(s_.targets[0].value) == name and norm(s_.targets[0].slice) == kv]
+            if stores:
+                recs.append({'table': ti[0], 'kind': 'loop', 'loop': lp, 'stores': stores, 'key': kv})
+                found = True
+        if not found:
+            raise AnalysisError('BoundRoute.match_path: how the returned mapping %s is filled from a table of converters was not recognised' % name)
+    return mp, rets, recs
+
+
+def check_url_params_complete(rep, rule):
+    """Every name binding counted as provided by the URL is in the mapping a matching request gets: whenever match_path returns
+    a mapping, it holds a value for *every* key of the table of converters -- each iteration of the filling loop either
+    completes a store under the key at hand or leaves the function without a mapping (no match / an exception); a
+    comprehension over the table has no filter.  A binding left out of the mapping is a parameter the bind-time check
+    accepted (``url`` is a source of every binding of the pattern) and the generated chain then does not receive."""
+    repo = rep.repo
+    mp, rets, recs = url_param_fillers(repo)
+    cfg = cfg_of(mp)
+    ret_nodes = cfg.nodes_of_all(rets)
+    for i, r in enumerate(recs):
+        if r['kind'] == 'comp':
+            ok, node = not r['filters'], r['node']
+        else:
+            lp = r['loop']
+            S = set(cfg.nodes_of_all(r['stores']))
+            heads = [n for n in cfg.nodes_of(lp) if cfg.nodes[n].kind == 'head']
+            iters = [n.id for n in cfg.nodes if n.kind == 'iter' and n.stmt is lp]
+            # a store that raises has not stored: the exceptional ways out of it count as ways round it
+            unstored = [m for (n, m) in cfg.exc_edges if n in S]
+            reached = cfg.reach(iters + unstored, avoid=S)
+            ok, node = not ((set(heads) | set(ret_nodes)) & reached), r['stores'][0]
+        rep.check(rule, fkey(mp, 'every binding of self.%s gets a value%s' % (r['table'], '' if i == 0 else ' (%d)' % i)), ok,
+                  'a mapping returned by match_path has a value for every binding of self.%s' % r['table'] if ok else
+                  'match_path can return a mapping that lacks a binding of self.%s (%s): binding counted every name of the pattern as '
+                  'provided by the URL, so a function requiring that name is accepted at construction and then called without it'
+                  % (r['table'], 'the comprehension filters the table' if r['kind'] == 'comp' else
+                     'an iteration of the loop can end without the store under its key having completed'), mp.mod, node)
+
+
+def url_source_info(repo):
+    """The bind-time view of the URL bindings in BoundRoute.__init__.  -> (bi, table, keys_view, claimed): ``table`` is the
+    attribute of self whose keys match_path turns into URL parameters; ``keys_view(e)`` says whether the expression ``e``
+    of BoundRoute.__init__ denotes exactly the keys of that table (the table itself, ``.keys()``, order / container
+    changing copies, an unfiltered comprehension, a local or another attribute of self bound once to such a view);
+    ``claimed`` are the expressions declared to be the names the URL provides (the ``'url'`` entries of the source maps)."""
+    bi = repo.mod(ROUTE).func('BoundRoute.__init__')
+    _mp, _rets, recs = url_param_fillers(repo)
+    tables = sorted(set(r['table'] for r in recs))
+    if len(tables) != 1:
+        raise AnalysisError('BoundRoute.match_path fills the URL parameters from several tables: %r' % tables)
+    table = tables[0]
+    texts = {'self.%s' % table}
+    for s_ in stmts_of(bi.node):
+        if isinstance(s_, ast.Assign) and len(s_.targets) == 1 and isinstance(s_.value, ast.Name) and norm(s_.targets[0]) == 'self.%s' % table and \
+                len(assigned_value(bi.node, s_.value.id)) == 1 and s_.value.id not in bi.params():
+            texts.add(s_.value.id)
+
+    def is_table(e, depth=0):
+        if isinstance(e, ast.Call) and call_name(e) == 'dict' and len(e.args) == 1 and not e.keywords:
+            return is_table(e.args[0], depth)
+        if isinstance(e, ast.Call) and isinstance(e.func, ast.Attribute) and e.func.attr == 'copy' and not e.args and not e.keywords:
+            return is_table(e.func.value, depth)
+        return norm(e) in texts
+
+    def attr_values(text):
+        out = []
+        for s_ in stmts_of(bi.node):
+            tgs = s_.targets if isinstance(s_, ast.Assign) else ([s_.target] if isinstance(s_, (ast.AugAssign, ast.AnnAssign)) else [])
+            for t in tgs:
+                if norm(t) == text:
+                    out.append(s_.value if isinstance(s_, (ast.Assign, ast.AnnAssign)) and len(tgs) == 1 else None)
+                elif isinstance(t, (ast.Tuple, ast.List)) and any(norm(x) == text for x in t.elts):
+                    out.append(None)
+        return out
+
+    def keys_view(e, depth=0):
+        if depth > 5 or e is None:
+            return False
+        e = _unwrap_seq(e)
+        if is_table(e):
+            return True
+        if isinstance(e, ast.Call) and isinstance(e.func, ast.Attribute) and e.func.attr == 'keys' and not e.args and not e.keywords:
+            return is_table(e.func.value)
+        if isinstance(e, (ast.ListComp, ast.SetComp, ast.GeneratorExp)) and len(e.generators) == 1 and not e.generators[0].ifs and \
+                isinstance(e.elt, ast.Name):
+            g = e.generators[0]
+            it = _unwrap_seq(g.iter)
+            if isinstance(it, ast.Call) and isinstance(it.func, ast.Attribute) and it.func.attr == 'items' and not it.args:
+                return _key_var(g.target, 'items') == e.elt.id and is_table(it.func.value)
+            return _key_var(g.target, 'keys') == e.elt.id and keys_view(it, depth + 1)
+        if isinstance(e, ast.Name) and e.id not in bi.params():
+            vals = assigned_value(bi.node, e.id)
+            return len(vals) == 1 and vals[0][2] is None and isinstance(vals[0][0], ast.Assign) and keys_view(vals[0][1], depth + 1)
+        if _self_attr(e):
+            vals = attr_values(norm(e))
+            return len(vals) == 1 and vals[0] is not None and keys_view(vals[0], depth + 1)
+        return False
+    claimed = []
+    for n in walk_body(bi.node):
+        if isinstance(n, ast.Dict):
+            claimed.extend(v for k, v in zip(n.keys, n.values) if isinstance(k, ast.Constant) and k.value == 'url')
+        elif isinstance(n, ast.Call) and call_name(n) == 'dict':
+            claimed.extend(k.value for k in n.keywords if k.arg == 'url')
+        elif isinstance(n, ast.Assign) and len(n.targets) == 1 and isinstance(n.targets[0], ast.Subscript) and \
+                isinstance(n.targets[0].slice, ast.Constant) and n.targets[0].slice.value == 'url':
+            claimed.append(n.value)
+    return bi, table, keys_view, claimed
+
+
+def check_url_source_agreement(rep, rule):
+    """Table agreement between the matcher and the bind-time check: the names BoundRoute.__init__ declares as provided by the
+    URL (the ``'url'`` source handed to check_middlewares / folded into the preprovided set) are the keys of the very table
+    match_path fills the URL parameters from -- not a second list derived in some other way (from the route being wrapped,
+    by another scan of the pattern).  A binding the matcher fills but the source lacks is not passed to a function that
+    declares it (a defaulted parameter silently keeps its default; an undefaulted one is refused at construction); a name
+    the source offers but the matcher does not bind is accepted at construction and missing on every request."""
+    repo = rep.repo
+    bi, table, keys_view, claimed = url_source_info(repo)
+    if not claimed:
+        raise AnalysisError("BoundRoute.__init__: the 'url' entry of the source map was not found")
+    for i, e in enumerate(claimed):
+        ok = keys_view(e)
+        rep.check(rule, fkey(bi, "the 'url' source is the table match_path binds from%s" % ('' if i == 0 else ' (%d)' % i)), ok,
+                  'the names counted as provided by the URL are the keys of self.%s, the table match_path fills the URL parameters from' % table
+                  if ok else
+                  'the names counted as provided by the URL at bind time (%s) are not taken from self.%s, the table match_path fills the '
+                  'URL parameters from: where the two lists differ, a binding the matcher fills is not offered to the functions that declare '
+                  'it (a parameter with a default silently keeps the default), or a name is accepted at construction that no request '
+                  'ever supplies' % (short(e, 50), table), bi.mod, e)
+
+
+# ---------------------------------------------------------------------------------------------
+# R03.d: what binding reads off the application is assigned before the constructor binds anything
+# ---------------------------------------------------------------------------------------------
+
+def app_attrs_read_at_bind(repo):
+    """Attributes BoundRoute.__init__ reads off the application it binds to (``app.x``, ``getattr(app, 'x', ..)``, the same on
+    a local alias or on the elements of a list built with ``[app]`` in it).  -> (bi, {attribute: node})"""
+    bi = repo.mod(ROUTE).func('BoundRoute.__init__')
+    ps = bi.params()
+    if len(ps) < 3:
+        raise AnalysisError('BoundRoute.__init__: parameters (route, app) not found')
+    aliases, holders = {ps[2]}, set()
+    for _ in range(3):
+        for n in walk_body(bi.node):
+            if isinstance(n, ast.Assign) and isinstance(n.value, ast.Name) and n.value.id in aliases:
+                aliases.update(t.id for t in n.targets if isinstance(t, ast.Name))
+            elif isinstance(n, ast.Assign) and any(isinstance(x, ast.List) and any(isinstance(y, ast.Name) and y.id in aliases for y in x.elts)
+                                                   for x in ast.walk(n.value)):
+                for t in n.targets:
+                    for x in (t.elts if isinstance(t, (ast.Tuple, ast.List)) else [t]):
+                        holders.add(norm(x))
+            elif isinstance(n, ast.Assign) and norm(n.value) in holders:
+                holders.update(norm(t) for t in n.targets)
+            its = []
+            if isinstance(n, ast.For):
+                its.append((n.target, n.iter))
+            elif isinstance(n, (ast.ListComp, ast.SetComp, ast.GeneratorExp, ast.DictComp)):
+                its.extend((g.target, g.iter) for g in n.generators)
+            for tg, it in its:
+                if isinstance(tg, ast.Name) and norm(_unwrap_seq(it)) in holders:
+                    aliases.add(tg.id)
+    reads = {}
+    for n in walk_body(bi.node):
+        if isinstance(n, ast.Attribute) and isinstance(n.ctx, ast.Load) and isinstance(n.value, ast.Name) and n.value.id in aliases:
+            reads.setdefault(n.attr, n)
+        elif isinstance(n, ast.Call) and call_name(n) == 'getattr' and len(n.args) >= 2 and isinstance(n.args[0], ast.Name) and \
+                n.args[0].id in aliases and isinstance(n.args[1], ast.Constant) and isinstance(n.args[1].value, str):
+            reads.setdefault(n.args[1].value, n)
+    return bi, reads
+
+
+def check_bound_after_state(rep, rule, only=None):
+    """Def-use order in Application.__init__: binding a route to the application reads the application's state (its
+    middlewares, resources, slash mode, error handler, render factory), so every statement of the constructor that binds
+    -- ``<route>.bind(self)`` / ``bind_all(self)``, or a method of the class that does so (``self.add(..)``) -- is dominated by
+    the assignment of each of those attributes the constructor makes (directly or through a method it calls on self).  A
+    route bound earlier is built from the attribute's fallback (``getattr(app, 'middlewares', [])``): e.g. it runs outside the
+    application's middleware stack."""
+    repo = rep.repo
+    app = repo.mod(APP)
+    ai = app.func('Application.__init__')
+    cls = app.cls('Application')
+    bi, reads = app_attrs_read_at_bind(repo)
+    cfg = cfg_of(ai)
+
+    def binds_self(c):
+        return isinstance(c, ast.Call) and call_tail(c) in ('bind', 'bind_all') and isinstance(c.func, ast.Attribute) and \
+            any(norm(a) == 'self' for a in c.args)
+    binders = set(m for m, f in cls.methods.items() if m != '__init__' and any(binds_self(c) for c in walk_body(f.node)))
+    for _ in range(2):
+        binders |= set(m for m, f in cls.methods.items() if m != '__init__' and
+                       any(isinstance(c, ast.Call) and isinstance(c.func, ast.Attribute) and norm(c.func.value) == 'self' and c.func.attr in binders
+                           for c in walk_body(f.node)))
+
+    def self_call(c):
+        return c.func.attr if isinstance(c, ast.Call) and isinstance(c.func, ast.Attribute) and norm(c.func.value) == 'self' else None
+    sites = [s_ for s_ in stmts_of(ai.node) if not isinstance(s_, (ast.If, ast.For, ast.While, ast.Try, ast.With)) and
+             any(binds_self(c) or self_call(c) in binders for c in ast.walk(s_))]
+    if not sites:
+        raise AnalysisError('Application.__init__: no statement that binds a route to the application was found')
+
+    def writes(attr):
+        text = 'self.%s' % attr
+
+        def assigns(st):
+            tgs = st.targets if isinstance(st, ast.Assign) else ([st.target] if isinstance(st, (ast.AugAssign, ast.AnnAssign)) else [])
+            return any(norm(x) == text for t in tgs for x in (t.elts if isinstance(t, (ast.Tuple, ast.List)) else [t]))
+        out = []
+        for s_ in stmts_of(ai.node):
+            if assigns(s_):
+                out.append(s_)
+            elif not isinstance(s_, (ast.If, ast.For, ast.While, ast.Try, ast.With)):
+                for c in ast.walk(s_):
+                    m = cls.methods.get(self_call(c)) if self_call(c) else None
+                    if m is not None and any(assigns(x) for x in stmts_of(m.node)):
+                        out.append(s_)
+                        break
+        return out
+    for attr in sorted(reads):
+        if only is not None and attr not in only:
+            continue
+        ws = writes(attr)
+        if not ws:
+            continue          # not set by the constructor (a class attribute, a property): no order to keep
+        wn = cfg.nodes_of_all(ws)
+        late = [s_ for s_ in sites if not cfg.must_pass(wn, cfg.entry, cfg.nodes_of(s_))]
+        ok = not late
+        rep.check(rule, fkey(ai, 'self.%s assigned before anything is bound' % attr), ok,
+                  'self.%s is assigned before the constructor binds any route (binding reads it off the application)' % attr if ok else
+                  'Application.__init__ binds a route (%s) on a path where self.%s is not assigned yet: BoundRoute.__init__ reads it off the '
+                  'application (%s), so that route is built from the fallback -- e.g. with an empty middleware stack, outside the '
+                  "application's middlewares" % (short(late[0], 60), attr, short(reads[attr], 50)), ai.mod, late[0] if late else ws[0])
+
+
+# ---------------------------------------------------------------------------------------------
 # R01.a / R04.a: the name sources BoundRoute.__init__ hands to check_middlewares / make_middleware_chain
 # ---------------------------------------------------------------------------------------------
 
@@ -2642,26 +2973,29 @@ def eval_bind_sources(repo, expr, before_stmt):
     path pattern), BUILTINS (RESERVED_ARGS) and RES (keys of the merged resources), evaluated just before
     ``before_stmt``.  The path converters / the merged resources may be referred to through ``self`` or through the
     local that was stored there.  -> (universe, plain value); Unmodelled when the expression leaves the subset."""
-    route = repo.mod(ROUTE)
-    bi = route.func('BoundRoute.__init__')
-    uni = Universe(['URL', 'BUILTINS', 'RES'])
-    texts = {'URL': {'self.converters', 'self.path_args'}, 'RES': {'self.resources'}}
+    bi, table, keys_view, claimed = url_source_info(repo)
+    # URL: the keys of the table match_path fills the URL parameters from (by provenance, see url_source_info); a list declared
+    # to be the names the URL provides that is *not* a view of that table is an atom of its own (the sets then differ)
+    uni = Universe(['URL', 'BUILTINS', 'RES', 'URL_NAMES_NOT_FROM_THE_MATCHER_TABLE'])
+    texts = {'RES': {'self.resources'}}
     for s_ in stmts_of(bi.node):
         if isinstance(s_, ast.Assign) and len(s_.targets) == 1 and isinstance(s_.value, ast.Name) and \
                 len(assigned_value(bi.node, s_.value.id)) == 1 and s_.value.id not in bi.params():
-            t = norm(s_.targets[0])
-            if t == 'self.converters':
-                texts['URL'].add(s_.value.id)
-            elif t == 'self.resources':
+            if norm(s_.targets[0]) == 'self.resources':
                 texts['RES'].add(s_.value.id)
     for k in list(texts):
         texts[k] |= set(t + '.keys()' for t in texts[k])
+    other = set(norm(_unwrap_seq(x)) for x in claimed if not keys_view(x))
 
     def atom_of(e):
         t = norm(e)
         for k, ts in texts.items():
             if t in ts:
                 return uni[k]
+        if keys_view(e):
+            return uni['URL']
+        if norm(_unwrap_seq(e)) in other:
+            return uni['URL_NAMES_NOT_FROM_THE_MATCHER_TABLE']
         if t == 'RESERVED_ARGS' and repo.try_fold(e, bi.mod) is not None:
             return uni['BUILTINS']
         return None
@@ -2670,6 +3004,8 @@ def eval_bind_sources(repo, expr, before_stmt):
         if isinstance(e, ast.Call) and call_name(e) in ('set', 'frozenset', 'list', 'tuple', 'sorted') and len(e.args) == 1 and not e.keywords:
             return atom_of(e.args[0])
         if isinstance(e, ast.Name) and e.id == 'RESERVED_ARGS':
+            return atom_of(e)
+        if isinstance(e, (ast.Call, ast.Attribute, ast.ListComp, ast.SetComp, ast.GeneratorExp)) and (keys_view(e) or norm(_unwrap_seq(e)) in other):
             return atom_of(e)
         return None
     it = SetInterp(uni, model=model)
